@@ -153,8 +153,9 @@ class Pseudo2NetCDF:
                 pvar = pvar[...]
             nvar[...] = pvar
         elif isinstance(pvar[...], MaskedArray):
-            nvar[:] = pvar[...].filled(getattr(nvar, 'fill_value', getattr(
-                nvar, '_FillValue', getattr(pvar, 'missing_value', -9999))))
+            # the value netCDF masks on reading is the disk _FillValue
+            nvar[:] = pvar[...].filled(getattr(nvar, '_FillValue', getattr(
+                nvar, 'fill_value', getattr(pvar, 'missing_value', -9999))))
         else:
             nvar[:] = pvar[...]
 
